@@ -45,6 +45,10 @@ var poisonL = line(-1)
 func producer3(w sdf.Triangle3Writer, first int, batches []int, scratch []*sdf.Triangle3) {
 	k := first
 	for _, n := range batches {
+		if n < 0 { // Close used as a mid-stream flush: the writer stays usable
+			w.Close()
+			continue
+		}
 		for i := 0; i < n; i++ {
 			scratch[i] = tri(k)
 			k++
@@ -58,6 +62,10 @@ func producer3(w sdf.Triangle3Writer, first int, batches []int, scratch []*sdf.T
 func producer2(w sdf.Line2Writer, first int, batches []int, scratch []*sdf.Line2) {
 	k := first
 	for _, n := range batches {
+		if n < 0 {
+			w.Close()
+			continue
+		}
 		for i := 0; i < n; i++ {
 			scratch[i] = line(k)
 			k++
@@ -98,7 +106,7 @@ func (dummy2) BoundingBox() sdf.Box2   { return sdf.Box2{Max: v2.Vec{X: 1, Y: 1}
 // scenario description (also the replay format)
 type scen struct {
 	Kind    string  `json:"kind"`    // tbuf, lbuf, totriangles, tostl, tosvg, todxf, to3mf
-	Batches [][]int `json:"batches"` // per producer
+	Batches [][]int `json:"batches"` // per producer; a negative entry is a Close() used as a mid-stream flush
 	Bound   int     `json:"bound"`
 	Prefix  []int   `json:"schedule_prefix,omitempty"`
 	// Before: batches of an earlier render to the same path in the same execution (file sinks): the sink must
@@ -109,7 +117,9 @@ type scen struct {
 func total(b []int) int {
 	t := 0
 	for _, x := range b {
-		t += x
+		if x > 0 {
+			t += x
+		}
 	}
 	return t
 }
@@ -575,6 +585,26 @@ func main() {
 	}
 	for _, s := range seqs(menu(L), maxLen) {
 		scens = append(scens, scen{Kind: "lbuf", Batches: [][]int{s}, Bound: -1})
+	}
+	// Close in the middle of the stream (a flush; e.g. one writer handed to two Render calls in turn): the
+	// writer must stay usable and nothing already delivered may be delivered again
+	hasClose := func(s []int) bool {
+		for _, x := range s {
+			if x < 0 {
+				return true
+			}
+		}
+		return false
+	}
+	for _, s := range seqs([]int{-1, 1, 5, T - 1, T, T + 1}, maxLen+1) {
+		if hasClose(s) && total(s) > 0 {
+			scens = append(scens, scen{Kind: "tbuf", Batches: [][]int{s}, Bound: -1})
+		}
+	}
+	for _, s := range seqs([]int{-1, 1, 5, L - 1, L, L + 1}, maxLen+1) {
+		if hasClose(s) && total(s) > 0 {
+			scens = append(scens, scen{Kind: "lbuf", Batches: [][]int{s}, Bound: -1})
+		}
 	}
 	// sinks: the real collector and file writers, single producer
 	sinkSeqs := seqs([]int{0, 1, T - 1, T, T + 1, 2*T + 3}, vlib.Pick(c, 2, 3))
